@@ -180,6 +180,29 @@ def err_reply(e, encoding):
     return {"r": "err", "k": k}
 
 
+_header_classes = {}
+
+
+def header_class(via):
+    """NPCI itself, a header-only subclass with its own decode(), or a mix-in of
+    NPCI with PDUData that is not NPDU — all reach NPCI.decode directly"""
+    if not _header_classes:
+        from bacpypes.npdu import NPCI
+        from bacpypes.comm import PDUData
+
+        class HeaderOnly(NPCI):
+            def decode(self, pdu):
+                NPCI.decode(self, pdu)
+                self.remaining = len(pdu.pduData)
+
+        class Sniffed(NPCI, PDUData):
+            def decode(self, pdu):
+                NPCI.decode(self, pdu)
+                self.pduData = bytearray(pdu.pduData[:8])       # a peek, the PDU keeps its octets
+        _header_classes.update(npci=NPCI, subclass=HeaderOnly, mixin=Sniffed)
+    return _header_classes[via]
+
+
 def impl(case):
     from bacpypes.npdu import NPDU, npdu_types
     from bacpypes.pdu import PDU
@@ -195,6 +218,13 @@ def impl(case):
             n = NPDU()
             n.decode(PDU(bytes.fromhex(case["hex"])))
             return {"r": "ok", "h": jheader(n), "data": bytes(n.pduData).hex()}
+        if op == "hdec":
+            # the bare header entry point: NPCI.decode on its own, or reached from a
+            # class derived from NPCI (header-only / sniffer frames, mix-ins)
+            pdu = PDU(bytes.fromhex(case["hex"]))
+            o = header_class(case.get("via", "npci"))()
+            o.decode(pdu)
+            return {"r": "ok", "h": jheader(o), "rest": bytes(pdu.pduData).hex()}
         if op == "menc":
             msg = mk_msg(case["m"])
             apply_header(msg, case["h"], with_msg=False)
@@ -443,7 +473,7 @@ def oracle(ctx, case, a):
     if k.startswith("python:"):
         ctx.fail("unexpected-exception", case, "raised %s" % k, op=op)
         return
-    if op in ("dec", "mdec", "bdec") and a.get("r") == "err" and k != "decoding":
+    if op in ("dec", "hdec", "mdec", "bdec") and a.get("r") == "err" and k != "decoding":
         ctx.fail("wrong-error", case, "decoder failed with %s, not DecodingError" % k, op=op)
         return
     if op in ("enc", "menc", "benc") and a.get("r") == "ok" and overflows(case):
@@ -476,6 +506,17 @@ def oracle(ctx, case, a):
         if a != want:
             kind = "not-refused" if want["r"] == "err" else "misread"
             ctx.fail(kind, case, "decoded %r, clause 6.2 reading is %r" % (a, want), op=op)
+    elif op == "hdec":
+        b = bytes.fromhex(case["hex"])
+        try:
+            h, payload = ref_parse(b)
+            want = {"r": "ok", "h": h, "rest": payload.hex()}
+        except Refuse:
+            want = {"r": "err", "k": "decoding"}
+        if a != want:
+            kind = "not-refused" if want["r"] == "err" else "misread"
+            ctx.fail(kind, case, "NPCI.decode (bare header entry point, via %s) gave %r, clause 6.2 reading is %r" % (
+                case.get("via", "npci"), a, want), op=op)
     elif op == "menc":
         h, m = case["h"], case["m"]
         hh = dict(h, msg=m[0])
@@ -837,7 +878,7 @@ def sig(case, r):
         extra = (n if n < 8 else 8,) if "hex" in case else ()
         if op == "bdec":
             extra += (case["code"],)
-        elif op in ("dec", "mdec") and n >= 2:
+        elif op in ("dec", "hdec", "mdec") and n >= 2:
             extra += (case["hex"][:2] == "01", int(case["hex"][2:4], 16) & 0xA8)
         elif op in ("enc", "menc"):
             extra += h_sig(case["h"])
@@ -846,6 +887,8 @@ def sig(case, r):
         return h_sig(case["h"]) + (r["ctl"],)
     if op == "dec":
         return h_sig(r["h"]) + (r["h"]["ctl"] & 0x50, min(len(r["data"]) // 2, 2))
+    if op == "hdec":
+        return h_sig(r["h"]) + (r["h"]["ctl"] & 0x50, min(len(r["rest"]) // 2, 2), case.get("via", "npci"))
     if op == "menc":
         return m_sig(case["m"]) + (case["h"]["dadr"] is None, case["h"]["sadr"] is None)
     if op == "mdec":
@@ -1403,12 +1446,21 @@ def shard_dec(ctx, spec):
     length, lo, hi = spec
     cases = [{"op": "dec", "hex": v.to_bytes(length, "big").hex() if length else ""} for v in range(lo, hi)]
     run_cases(ctx, "dec-exh-%d" % length, cases)
+    # the same octets through the bare NPCI entry point (length 3: every 16th string)
+    vias = ("npci", "subclass", "mixin")
+    twins = [{"op": "hdec", "hex": c["hex"], "via": vias[i % 3]} for i, c in enumerate(cases[::16 if length >= 3 else 1])]
+    run_cases(ctx, "hdec-exh-%d" % length, twins)
 
 
 def shard_cases(ctx, spec):
-    """a generated stream cut into pieces for the worker processes"""
+    """a generated stream cut into pieces for the worker processes; every
+    NPDU.decode case is repeated through the bare NPCI entry point"""
     stream, cases = spec
     run_cases(ctx, stream, cases)
+    vias = ("npci", "subclass", "mixin")
+    twins = [dict(c, op="hdec", via=vias[i % 3]) for i, c in enumerate(cases) if c["op"] == "dec"]
+    if twins:
+        run_cases(ctx, "h" + stream, twins)
 
 
 def shard_bdec(ctx, spec):
